@@ -99,7 +99,8 @@ CLAIMS = {
   text="(1) range: deductive proof, for all int64 argument tuples, that the result is exactly the arithmetic progression from start by step strictly before stop (first element, constant difference, every element before stop, maximality in unbounded integers), "
        "empty when the step points away, and that it panics exactly for a zero step or a wrong argument count; the proof found the int64 wrap-around defect (unbounded loop), repaired by a fix: commit. "
        "(2) package tables: one ground obligation per entry of env.Packages / env.PackageTypes (about 590): the entry is bound to the Go object (resolved by go/types) whose name is the key, in the package whose import path is the table's name; two declared exceptions. "
-       "(3) core.Import/ImportToX define into the given environment only. Not yet under functional contract: keys, typeOf/kindOf, the toX conversion builtins, len (only their panic-freedom obligations are generated, unclaimed).",
+       "(3) core.Import/ImportToX define into the given environment only. (4) the typed-slice conversions: toSlice's contract over the trace of its reflect stores - element k of the new slice receives the converted k-th input, or the zero value when it is nil or not convertible, and the new slice is stored into the target. "
+       "Not yet under functional contract: keys, typeOf/kindOf, the scalar toX conversion builtins, len (only their panic-freedom obligations are generated, unclaimed).",
   note=TRUST + "Assumed: strconv/fmt/reflect.Convert semantics; Go's identifier resolution (go/types) is the oracle for the tables.",
   technique="contract-based deductive verification: loop invariants for the progression, ground obligations from the typed AST for the tables, z3/cvc5",
   ref="4 C19"),
@@ -129,7 +130,8 @@ CLAIMS = {
   text="Deductive proof that == and != decide one relation eqV, written from the property statement over the value observers: nil equals only nil; int64/int64, string/string, bool/bool compare by Go's ==; int/float pairs compare numerically in float64 (feq of asF, i.e. exactly when <= and >= both hold); "
        "pointer/interface operands are compared through what they hold. vm.equal's postcondition is result == eqV(l, r) on nil and core pairs, invokeComparisonOperator's == returns exactly eqV and != exactly its negation on the operands as evaluated (activation trace), isNil/isNum/tryToBool have definitional contracts, "
        "and the lemma 'eqV is symmetric' is discharged by the solver. The proof found int==float comparing string renderings; repaired by a fix: commit. "
-       "NOT decided: container structural equality (reflect.DeepEqual is abstracted as eqOther, ASSUMED symmetric), string-vs-number equality (falls under eqOther), and that `in` and `switch` use the same relation (their evaluators call equal - checked only as call structure, not as a postcondition).",
+       "`switch` and `in` are specified with the relation vm.equal computes (equalR): a switch runs the first case whose expression is equalR to the subject, `x in list` is true exactly when some element of the list is equalR to x. "
+       "NOT decided: container structural equality (reflect.DeepEqual is abstracted as eqOther, ASSUMED symmetric) and string-vs-number equality (falls under eqOther).",
   note=TRUST + "Assumed: eqOther (DeepEqual and the mixed string/number path) is symmetric; reflect observers are functions of the value.",
   technique="contract-based deductive verification: postcondition result == eqV(...) plus a symmetry lemma, z3/cvc5",
   ref="4 C06"),
@@ -145,7 +147,8 @@ CLAIMS = {
  'C20': dict(
   text="Deductive proof for the operator positions: every postcondition of the four operator evaluators (binary add/multiply/comparison, unary) is stated over unwrap(operand) - the value an interface-typed element or result wraps - and never over the operand as obtained, so it holds identically for a direct and a wrapped operand; "
        "a code path that inspects the kind of the operand before unwrapping fails it (this is how the unary-operator defect was found; repaired by a fix: commit). "
-       "NOT decided here: the same statement for index/slice/call/range/assignment positions and for values returned by Go functions declared interface{} (their evaluators are under safety and scope contracts only); dynamic type preservation through containers is not expressed.",
+       "The same for four value positions outside the operators, stated over unwrap(operand): `*x`, `x in list`, `close(x)` and the spread operand of `f(xs...)`; all four inspected the operand's kind before unwrapping and failed on a slice element (found by these obligations, repaired by four fix: commits). "
+       "NOT decided here: index/slice/member/range/assignment positions and values returned by Go functions declared interface{} (those evaluators already unwrap, but are under safety and scope contracts only); dynamic type preservation through containers is not expressed.",
   note=TRUST + "Assumed: reflect.Value.Elem of a non-nil interface value yields the wrapped value (trusted reflect contract).",
   technique="contract-based deductive verification: operator postconditions over unwrap(operand), z3/cvc5",
   ref="4 C20"),
@@ -161,6 +164,17 @@ CLAIMS = {
   note=TRUST + "Assumed: goyacc's driver implements lrAction and hands each action the slots of its production; the step from 'every precedence decision is the table's' to 'the tree of every expression' is the standard LR argument (not machine-checked); strconv.ParseInt/ParseFloat are the oracle for what a digit string denotes; unicode.IsLetter is false on ASCII non-letters.",
   technique="contract-based deductive verification: ground lemma over the compiled LR tables against the property's operator table; postconditions on Scan and toNumber; z3/cvc5; replay of table facts on the real parser",
   ref="8.3 C03"),
+ 'C16': dict(
+  text="Deductive proof of the interpreter's channel GLUE - what the vm itself does around Go's channel operations - over the activation trace (with reflect.Select and the element conversion recorded in it): "
+       "`ch <- v` converts v with convertReflectValueToType to the element type of the channel the left operand denotes and hands exactly that converted value to ONE reflect.Select whose send case is on that channel (ctx.Done() first, C02); `<- ch` receives from the channel the operand denotes; "
+       "a receive that arrives yields the received value, a receive that finds the channel closed and drained yields nil with no error, an interruption yields ErrInterrupt; `v, ok = <-ch` assigns ok the arrived/closed flag and assigns v only when a value arrived (closed: v is not assigned at all); "
+       "`for v in ch` receives from the channel it iterates, runs the body once per received value and ends without error exactly when the channel is closed and drained (or on break/return/error/interrupt); close(x) closes exactly the channel x denotes; "
+       "send on a closed channel and double close are inside a recover region (trusted panic conditions of reflect.Select send cases and Value.Close, obligations shared with C01) so they surface as errors; "
+       "`go f(args)` evaluates every argument (direct path: all operands in order; reflect path: makeCallArgs completed without error) in the calling goroutine before the goroutine is started. "
+       "NOT decided and not decidable by per-function contracts: that every value sent is received exactly once in FIFO order and that pipelines deliver all items under every schedule - these are properties of Go's channels and scheduler (the language runtime is trusted); no schedules are explored.",
+  note=TRUST + "Assumed: Go channel semantics (FIFO, exactly-once delivery, close semantics) as implemented by the runtime behind reflect.Select/Close; the encoding of a Select outcome in the trace (0 value arrived or send done, 1 closed, 2 interrupted) is a transcription of reflect.Select's documented results.",
+  technique="contract-based deductive verification: call-site and trace postconditions on the channel evaluators, z3/cvc5",
+  ref="8.3 C16"),
  'C15': dict(
   text="Deductive proof, for all inputs, of the scanner/lexer half of the property: every Scanner method, Lexer.Lex/Error, Parse and ParseSrc "
        "is symbolically executed from the SSA of /repo's working tree against contracts kept in parser/zz_contracts_verif.go; obligations: memory "
